@@ -229,9 +229,9 @@ pub fn check_c04(obs: &Observation) -> V {
                     );
                 }
             }
-            if known && r.dropped_at.is_none() && r.closed_at.is_some() && matches!(obs.result, Some(Ok(()))) && linked {
+            if known && r.dropped_at.is_none() && r.closed_at.is_some() && obs.result.is_some() && linked {
                 add(
-                    format!("as: link left open when the agent stopped lane-kind={}", kind),
+                    format!("as: link left open when the agent {} lane-kind={}", if matches!(obs.result, Some(Ok(()))) { "stopped" } else { "failed" }, kind),
                     format!("remote {} lane {}: channel closed by the agent without a final unlinked", ri, lane),
                 );
             }
